@@ -442,14 +442,16 @@ def run_deep(acc, api):
         yield 'global-assign', {'statements': [{'expr': {'name': 'n', 'expr': {'number': 1.0}}}, {'expr': {'name': 'm', 'expr': e}}]}
         yield 'function-body', {'statements': [{'function': {'name': 'ff', 'args': ['n', 'q'], 'statements': [{'expr': {'expr': e}}, {'return': {'expr': e}}]}}]}
         yield 'jump-condition', {'statements': [{'expr': {'name': 'n', 'expr': {'number': 0.0}}}, {'jump': {'label': 'L', 'expr': e}}, {'label': 'L'}]}
+    old_limit = sys.getrecursionlimit()
     for kind in ('group', 'unary', 'binary', 'binary-right', 'call'):
         shallow = {where: lint_script(m) for where, m in models(kind, 3)}
-        for depth in (60, 200, 450, 700):
+        for depth in (60, 200, 300, 450, 700, 900):
+            sys.setrecursionlimit(1000)  # the host's default stack budget (the shard runner works with a larger one)
             for where, m in models(kind, depth):
                 case = {'deep': kind, 'depth': depth, 'where': where}
                 try:
                     bare_script.validate_script(m)
-                    bare_script.execute_script(copy.deepcopy(m), {'globals': {}})
+                    bare_script.execute_script(m, {'globals': {}})
                 except RecursionError:
                     acc.count('deep_models_beyond_the_interpreter')
                     continue
@@ -462,6 +464,7 @@ def run_deep(acc, api):
                     continue
                 if got != shallow[where]:
                     acc.violation('lint-depends-on-nesting-depth', f'{where}, {depth} nested {kind} nodes: {got!r:.300} vs depth 3: {shallow[where]!r:.300}', case)
+            sys.setrecursionlimit(old_limit)
 
 
 def run_shipped(acc, api):
